@@ -165,7 +165,7 @@ func (c *ShipConnection) handshakeHello_PendingListen(timeout bool, message []by
 
 			// conversion is safe
 			newDuration := time.Duration(*hello.Waiting) * time.Millisecond // #nosec G115
-			c.lastReceivedWaitingValue = newDuration
+			c.setLastReceivedWaitingValue(newDuration)
 			duration := tHelloProlongThrInc
 			if newDuration >= duration {
 				// the duration has to be reduced
@@ -233,11 +233,13 @@ func (c *ShipConnection) handshakeHello_PendingTimeout() {
 		return
 	}
 
-	if c.lastReceivedWaitingValue == 0 {
+	waitingValue := c.getLastReceivedWaitingValue()
+	if waitingValue == 0 {
 		newValue := float64(tHelloInit.Milliseconds()) * 1.1
-		c.lastReceivedWaitingValue = time.Duration(newValue)
+		waitingValue = time.Duration(newValue)
+		c.setLastReceivedWaitingValue(waitingValue)
 	}
-	c.setHandshakeTimer(timeoutTimerTypeProlongRequestReply, c.lastReceivedWaitingValue)
+	c.setHandshakeTimer(timeoutTimerTypeProlongRequestReply, waitingValue)
 }
 
 func (c *ShipConnection) handshakeHelloSend(phase model.ConnectionHelloPhaseType, waitingDuration time.Duration, prolongation bool) error {
